@@ -15,7 +15,7 @@ def gen(n, seed):
             clients.append(ops)
         out.append({'id': 'srv-%d-%d' % (seed, i), 'seed': seed * 10007 + i, 'strategy': rnd.choice(['random', 'random', 'pct']), 'plan': [], 'clients': clients,
                     'onconnect': rnd.random() < 0.3, 'handler': rnd.choice(['quick', 'quick', 'yield', 'block']), 'shutdown': rnd.random() < 0.7,
-                    'deadline': rnd.choice([120, 120, 260]), 'pollers': rnd.choice([1, 2, 2, 2])})
+                    'deadline': rnd.choice([120, 120, 260]), 'pollers': rnd.choice([1, 2, 2, 2]), 'pusher': rnd.random() < 0.25})
     return out
 
 
